@@ -99,6 +99,50 @@ func getEmitModel(c *Ctx, m *vmModel) *emitModel {
 			}
 			return nil, true
 		}
+		// a field of an element of a read-only table literal of structs (family := &T[k]; family.load): that field
+		// of any element
+		if sel, ok := unparen(e).(*ast.SelectorExpr); ok {
+			var tbl *arrayTable
+			base := unparen(sel.X)
+			if ix, ok := base.(*ast.IndexExpr); ok {
+				tbl = arrayTableOf(c, info, ix.X)
+			} else if bid, ok := base.(*ast.Ident); ok {
+				obj := info.Uses[bid]
+				ast.Inspect(in.Body, func(n ast.Node) bool {
+					as, ok := n.(*ast.AssignStmt)
+					if !ok || len(as.Lhs) != len(as.Rhs) {
+						return true
+					}
+					for i, l := range as.Lhs {
+						if lid := identOf(l); lid != nil && info.ObjectOf(lid) == obj && obj != nil {
+							rhs := unparen(as.Rhs[i])
+							if u, ok := rhs.(*ast.UnaryExpr); ok && u.Op == token.AND {
+								rhs = unparen(u.X)
+							}
+							if ix, ok := rhs.(*ast.IndexExpr); ok {
+								tbl = arrayTableOf(c, info, ix.X)
+							}
+						}
+					}
+					return true
+				})
+			}
+			if tbl != nil && tbl.info == info {
+				var out []string
+				unk := false
+				for _, cl := range tbl.elems {
+					fe := fieldOfElem(info, cl, sel.Sel.Name)
+					if fe == nil {
+						return nil, true
+					}
+					o, u := resolve(fe, in, depth+1)
+					out = append(out, o...)
+					unk = unk || u
+				}
+				sort.Strings(out)
+				return out, unk
+			}
+		}
 		// the opcode looked up in a read-only table literal: any of its values
 		if ix, ok := unparen(e).(*ast.IndexExpr); ok {
 			if tl := tableLiteral(c, info, ix.X); tl != nil && tl.info == info {
